@@ -283,6 +283,23 @@ def base_core(rng):
                                gap_model='flow', bypass_fraction=0.03), 'A'
 
 
+def base_lowfirst(rng):
+    """A core whose first listed assembly type is a low-fidelity one (no pin
+    bundle is placed for it); the faults go into a pin-bundle type listed
+    after it."""
+    OF = 0.060
+    U = fitted_type(3, OF, use_low_fidelity_model=True,
+                    low_fidelity_model='simple')
+    A, B = fitted_type(2, OF), fitted_type(3, OF)
+    types = {'U': U, 'A': A, 'B': B}      # listing order of the input
+    p7 = scenarios.layout_positions(7)
+    names = ['U', 'A', 'B', 'A', 'U', 'A', 'B']
+    lay = [(r_, p_, names[i]) for i, (r_, p_) in enumerate(p7)]
+    flows = [scenarios.flow_for(types[n], 0.1) for n in names]
+    return scenarios.make_core(rng, types, lay, flows, gap_model='flow',
+                               bypass_fraction=0.03), 'A'
+
+
 def targeted(rng, base, tier):
     """(label, case, type, meant classes, flags, power edit)."""
     out = []
